@@ -333,8 +333,8 @@ def coverage_of(results, level="model_checking"):
         "samples": samples[:6] or [{"note": "no cases"}],
         "sets": [{"name": r["cases"], "tlc_cases": r["tlc"]["distinct"], "executed": (r.get("ah") or {}).get("cases"),
                   "runs": (r.get("ah") or {}).get("runs"), "records_validated": (r.get("validation") or {}).get("accepted"),
-                  "wall_s": r.get("wall_s")} for r in results],
-        "exhaustive": True,
+                  "wall_s": r.get("wall_s"), "cut_by_time_limit": bool(r.get("incomplete"))} for r in results],
+        "exhaustive": not any(r.get("incomplete") for r in results),
     }
 
 
